@@ -96,15 +96,54 @@ def run(tier, work):
                 v.count("not_reproduced_blackbox")
                 continue
             v.fail(key, what + " in program %r" % job["files"]["t.rb"], C.job_files_for_replay(job), detail={"out": rr.get("out")})
+    # third universe (spec/MethodPaths.tla): the method is inherited through one or two levels, the classes sit in
+    # namespaces, the call sites at the top level, in a top-level method or in methods of classes in namespaces
+    from . import methodpaths as MP
+    pprogs = MP.emit(work, stats, 2)
+    pprogs = rng.sample(pprogs, 2500 if tier == "quick" else 35000)
+    pjobs, pmeta = [], []
+    for p in pprogs:
+        lines, info = MP.render(p)
+        pjobs.append({"files": {"t.rb": "\n".join(lines) + "\n"}, "args": ["t.rb", "-i"]})
+        pmeta.append(info)
+    wr = C.Runner(work, "worker")
+    try:
+        presults = wr.run_many(pjobs)
+    finally:
+        wr.close()
+    for p, info, job, res in zip(pprogs, pmeta, pjobs, presults):
+        if res.get("skipped"):
+            v.count("skipped_jobs")
+            continue
+        if res.hung or res.crashed or res.get("exit") != 0:
+            key = "crash-or-hang:%s@%s" % (res.get("cls"), res.get("site"))
+            if not v.seen(key):
+                v.fail(key, "method program fails", C.job_files_for_replay(job))
+            else:
+                v.again(key)
+            continue
+        stats["runs"] += 1
+        checked += 1 + len(p["sites"])
+        for key, what in MP.judge_types(p, info, res["out"]):
+            if v.seen(key):
+                v.again(key)
+                continue
+            rr = C.confirm_alone(work, job, runs=1)[0]
+            if not any(k == key for k, _ in MP.judge_types(p, info, rr.get("out") or "")):
+                v.count("not_reproduced_blackbox")
+                continue
+            v.fail(key, what + " in program %r" % job["files"]["t.rb"], C.job_files_for_replay(job), detail={"out": rr.get("out")})
     v.sample({"program": MB.render(bprogs[0])[0], "ArgT": bprogs[0]["argT"], "RetT": bprogs[0]["retT"]})
     v.sample({"program": M.render(progs[0])[0], "ParamT": progs[0]["param"], "RetT": progs[0]["ret"]})
     cov = {"states": stats["states"], "transitions": stats["transitions"], "traces_validated_against_impl": stats["runs"],
-           "probes_compared": checked, "programs": len(progs), "method_body_programs": len(bprogs), "exhaustive": tier != "quick",
+           "probes_compared": checked, "programs": len(progs), "method_body_programs": len(bprogs), "method_path_programs": len(pprogs), "exhaustive": tier != "quick",
            "rule": "every Methods.tla program: 2-3 methods with one parameter, body returning the parameter / a literal / another "
                    "method's result (acyclic), 1-3 top-level call sites with Integer/String/Float arguments, every definition order; "
                    "every MethodBodies.tla program: one method with positional / defaulted / keyword parameters, body = parameter / second "
                    "parameter / explicit return / class-specific operation, 1-3 call sites before / after the definition or inside another "
-                   "method; parameter probes, result probes, diagnostics of the operation and the -i signature hint judged"}
+                   "method; parameter probes, result probes, diagnostics of the operation and the -i signature hint judged; every "
+                   "MethodPaths.tla program (sampled): the method inherited through 0-2 levels, classes placed in namespaces, call "
+                   "sites at the top level / in a top-level method / in methods of classes in namespaces"}
     return v.finish("model_checking", cov, assumptions=[
         "parameter types must COVER the union of the call-site types (a superset is accepted), results must EQUAL the model's"])
 
